@@ -17,8 +17,8 @@ import (
 //
 //	va_rawsize (4), va_extsize (4), va_valueid (4), va_toastrelid (4)
 type TOASTPointer struct {
-	RawSize      uint32 // Original uncompressed size
-	ExtSize      uint32 // External (compressed) size
+	RawSize      uint32 // va_rawsize: original size including the 4-byte varlena header
+	ExtSize      uint32 // External (stored, possibly compressed) size
 	ValueID      uint32 // chunk_id in TOAST table
 	ToastRelID   uint32 // OID of TOAST table
 	IsCompressed bool
@@ -45,39 +45,35 @@ const (
 	VarTagIndirect           = 0x01 // With high bit of size
 )
 
-// ParseTOASTPointer extracts TOAST pointer info from a varlena value
+// ParseTOASTPointer extracts TOAST pointer info from a varlena value.
+// On-disk layout (varattrib_1b_e followed by varatt_external, 18 bytes in total):
+//
+//	va_header = 0x01, va_tag = 18 (VARTAG_ONDISK),
+//	va_rawsize (int32, includes VARHDRSZ), va_extinfo (uint32: external size in the low 30 bits,
+//	compression method in the top 2 bits), va_valueid (Oid), va_toastrelid (Oid)
 func ParseTOASTPointer(data []byte) *TOASTPointer {
 	if len(data) < 18 {
 		return nil
 	}
 
-	// Check for TOAST pointer indicator
-	tag := data[0]
-	
-	// External TOAST: first byte is 0x01 (uncompressed) or 0x02 (compressed)
-	// With 1-byte header format
-	if tag != 0x01 && tag != 0x02 && tag != 0x12 {
+	// External TOAST datum: 1-byte varlena header 0x01 (VARATT_IS_1B_E)
+	if data[0] != 0x01 {
 		return nil
 	}
 
-	// varatt_external structure starts at byte 1 (after the tag)
-	offset := 1
-	if len(data) < offset+16 {
-		return nil
-	}
+	// varatt_external structure starts at byte 2 (after va_header and va_tag)
+	offset := 2
 
-	ptr := &TOASTPointer{
-		IsCompressed: tag == 0x02 || tag == 0x12,
-	}
+	ptr := &TOASTPointer{}
 
-	// va_rawsize includes compression method in high 2 bits
-	rawSizeField := binary.LittleEndian.Uint32(data[offset : offset+4])
-	ptr.RawSize = rawSizeField & 0x3FFFFFFF
-	ptr.CompressionMethod = int(rawSizeField >> 30)
+	// va_rawsize (original data size, including the 4-byte varlena header)
+	ptr.RawSize = binary.LittleEndian.Uint32(data[offset : offset+4])
 	offset += 4
 
-	// va_extsize (external/compressed size)
-	ptr.ExtSize = binary.LittleEndian.Uint32(data[offset : offset+4])
+	// va_extinfo: external saved size (low 30 bits) and compression method (top 2 bits)
+	extInfo := binary.LittleEndian.Uint32(data[offset : offset+4])
+	ptr.ExtSize = extInfo & 0x3FFFFFFF
+	ptr.CompressionMethod = int(extInfo >> 30)
 	offset += 4
 
 	// va_valueid (chunk_id)
@@ -86,6 +82,9 @@ func ParseTOASTPointer(data []byte) *TOASTPointer {
 
 	// va_toastrelid
 	ptr.ToastRelID = binary.LittleEndian.Uint32(data[offset : offset+4])
+
+	// VARATT_EXTERNAL_IS_COMPRESSED: extsize < rawsize - VARHDRSZ
+	ptr.IsCompressed = uint64(ptr.ExtSize)+4 < uint64(ptr.RawSize)
 
 	return ptr
 }
@@ -96,7 +95,7 @@ func IsTOASTPointer(data []byte) bool {
 		return false
 	}
 	first := data[0]
-	return first == 0x01 || first == 0x02 || first == 0x12
+	return first == 0x01 || first == 0x02
 }
 
 // ReadTOASTTable reads all chunks from a TOAST table file
